@@ -261,3 +261,38 @@ func TestReproClientIDAcrossMountPoints(t *testing.T) {
 		t.Fatalf("%d sessions listed after two tenants connected with the same client id, want 2", n)
 	}
 }
+
+type exhaustedPool struct{}
+
+func (exhaustedPool) Get() int32 { return 0 }
+func (exhaustedPool) Put(int32)  {}
+
+// finding #23 (C01/C02): when no packet identifier can be obtained for one QoS>0 recipient the fan-out returned,
+// skipping every remaining recipient — including QoS 0 recipients, which need no identifier.
+func TestReproFanoutStopsAtFirstRecipientWithoutIdentifier(t *testing.T) {
+	dstate := newDState(1)
+	local := NewState(1)
+	w := NewWriter(1, dstate.Subscriptions(), local, ack.NewQueue())
+	w.midPool = exhaustedPool{}
+	srv1, _ := net.Pipe()
+	s1, _ := sessions.NewSession("s1", "mp", "tcp", srv1, connectPkt("c1", 30))
+	local.Create("s1", s1)
+	srv2, cli2 := net.Pipe()
+	s2, _ := sessions.NewSession("s2", "mp", "tcp", srv2, connectPkt("c2", 30))
+	local.Create("s2", s2)
+	got := make(chan struct{}, 1)
+	go func() {
+		cli2.SetReadDeadline(time.Now().Add(3 * time.Second))
+		if pkt, err := decoder.New().Decode(cli2); err == nil {
+			if _, ok := pkt.(*packet.Publish); ok {
+				got <- struct{}{}
+			}
+		}
+	}()
+	w.send(bg(), []string{"s1", "s2"}, []int32{1, 0}, &packet.Publish{Header: &packet.Header{}, Topic: []byte("mp/t"), Payload: []byte("x")})
+	select {
+	case <-got:
+	case <-time.After(2 * time.Second):
+		t.Fatal("the QoS 0 recipient listed after a recipient for which no identifier was available received nothing")
+	}
+}
